@@ -154,7 +154,8 @@ def c11(mir, rec):
                 if got_fn != want_fn:
                     v.append(("binding", f"{n}#{k} is bound to function {got_fn}, the program passed function {want_fn}"))
                 if c["op"] == "call":
-                    want_args = [facts["child_ids"].get(a) for a in c["args"]]
+                    from ..ir import bound_args, fn_param_names
+                    want_args = [facts["child_ids"].get(a) for a in (bound_args(c, fn_param_names(events).get(c["f"])) or [])]
                     if b.get("args") != want_args:
                         v.append(("binding", f"call#{k} records arguments {b.get('args')}, the program passed {want_args}"))
                 if c["op"] == "reduce" and b.get("initial") != facts["child_ids"].get(c["init"]):
@@ -210,12 +211,4 @@ def c12_steps(rec):
     return v
 
 
-def _operands(c):
-    rs = []
-    for k in ("a", "b", "c", "r", "t", "o", "f", "init", "party", "ret"):
-        if k in c and isinstance(c[k], int) and not (c["op"] in ("wrap", "random") and k == "t"):
-            rs.append(c[k])
-    rs += list(c.get("xs", [])) + list(c.get("args", []))
-    if c["op"] == "objectNew":
-        rs += [r for _, r in c["fs"]]
-    return rs
+from ..ir import operand_regs as _operands  # noqa: E402
